@@ -16,11 +16,12 @@ MUTATORS = ('add', 'update', 'remove', 'discard', 'clear', 'intersection_update'
 
 
 class GraphModel(Analysis):
-    def __init__(self, prog, roles, sigs, inline_public=(), **kw):
+    def __init__(self, prog, roles, sigs, inline_public=(), no_inline=(), **kw):
         self.prog = prog
         self.roles = roles
         self.sigs = sigs
         self.inline_public = set(inline_public)
+        self.no_inline = set(no_inline)
         self.log = []
         self._seen = set()
 
@@ -36,6 +37,8 @@ class GraphModel(Analysis):
         return [e for e in self.log if e.kind in kinds and (summary or not e.summary)]
 
     def want_inline(self, ip, func, fr):
+        if func.name in self.no_inline:
+            return False
         if func.name in self.inline_public:
             return True
         return Analysis.want_inline(self, ip, func, fr)
@@ -57,6 +60,9 @@ class GraphModel(Analysis):
         self.ev(ip, 'STORE', node, st, fr, obj=obj, attr=attr, val=val, aug=aug, depth=fr.depth,
                 in_loop=bool(ip.loopctx))
         r = self.roles
+        if attr == r.reverse_attr and aug is None:
+            from .flow import store_invalidates
+            return st.forget(store_invalidates(obj, attr)).set(built=True)
         if attr == r.mark_attr:
             from .flow import store_invalidates
             st = st.forget(store_invalidates(obj, attr))
@@ -75,6 +81,17 @@ class GraphModel(Analysis):
         return None
 
     def on_call(self, ip, node, fterm, args, kws, st, fr):
+        if fterm[0] == 'attr' and fterm[2] in self.no_inline and args and args[0][0] == 'const' \
+                and args[0][1] == self.roles.reverse_attr:
+            self.ev(ip, 'READREV', node, st, fr, base=fterm[1], built=st.a('built', False), depth=fr.depth)
+        rb = self.roles.relation_builder
+        if rb is not None and fterm[0] == 'attr' and fterm[2] == rb.name and fterm[1] == fr.self_term \
+                and not st.a('built'):
+            # the relation builder is being called: from here on the reverse links are fresh
+            callee, recv, kind = ip.resolve(fterm, fr, node)
+            if callee is rb:
+                return ip.inline(rb, recv, args, kws, fterm, st.set(built=True), fr,
+                                 self._sink(ip), node) if ip.can_inline(rb, fr) else [(st.set(built=True), T.NONE)]
         if fterm[0] == 'attr' and fterm[2] in MUTATORS and T.is_attr(fterm[1]):
             # mutation of a collection held in an attribute: obj.attr.add(x)
             conds = tuple(sorted(((k, v) for k, v in st.facts.items()
@@ -88,6 +105,15 @@ class GraphModel(Analysis):
             self.ev(ip, 'CALL', node, st, fr, recv=fterm[1], meth=fterm[2], args=args, kws=kws,
                     depth=fr.depth)
         return None
+
+    def on_attr(self, ip, node, base, attr, st, fr):
+        if attr == self.roles.reverse_attr and isinstance(getattr(node, 'ctx', ast.Load()), ast.Load):
+            self.ev(ip, 'READREV', node, st, fr, base=base, built=st.a('built', False), depth=fr.depth)
+        return None
+
+    def _sink(self, ip):
+        from .flow import Out
+        return Out()
 
     def on_return(self, ip, node, val, st, fr):
         self.ev(ip, 'RET', node, st, fr, val=val, in_loop=bool(ip.loopctx), ypend=st.a('ypend'))
